@@ -256,4 +256,142 @@ theorem kstep (fuel : Nat) (hk : KInv flow F s a) (hi0 : AInv flow F cfg a s.now
         (triggerGet_noop hk hpe hh) hp hrest
       exact ⟨s', _, [], h1, h2, AStep.pendNoop a q1 r l1 l2 hpe hh, h3, by simpa using h4⟩
 
+/-! ## the combined invariant -/
+
+/-- the kernel state `s` is the configuration `a`, and `a` is sound -/
+structure Inv (F : Nat) (flow : Int → Nat) (cfg : SP.Cfg ℚ) (s : KS) (a : A) : Prop where
+  k : KInv flow F s a
+  a : AInv flow F cfg a s.now
+
+/-- **one kernel step**: it is `.ok`, is a configuration step, keeps the invariant and uses one unit of the step budget -/
+theorem inv_step (fuel : Nat) (h : Inv F flow cfg s a) (hp : popMin s.agenda = some (q, rest)) :
+    ∃ s' a' new, step (prog F flow size cfg) (fuel + 1) s = .ok s' ∧ Inv F flow cfg s' a' ∧ a'.mu F + 1 ≤ a.mu F ∧
+      AStep F flow size cfg s.events.size s.eid a q a' new ∧ s'.now = q.time ∧ histOf s'.trace = histOf s.trace ++ new := by
+  obtain ⟨s', a', new, h1, h2, h3, h4, h5⟩ := kstep (size := size) fuel h.k h.a hp
+  obtain ⟨g1, g2⟩ := astep_sound h.a (isMin_of_pop h.k hp).1 h3
+  exact ⟨s', a', new, h1, ⟨h2, by rw [h4]; exact g1⟩, g2, h3, h4, h5⟩
+
+theorem popMin_none {l : List (QEntry ℚ)} (h : popMin l = none) : l = [] := by
+  cases l with
+  | nil => rfl
+  | cons x xs =>
+    unfold popMin at h
+    cases hp : popMin xs with
+    | none => rw [hp] at h; cases h
+    | some mr => rw [hp] at h; simp only at h; split at h <;> cases h
+
+/-- **`run()` returns**: with more step budget than the configuration needs, `runLoop` ends with an empty agenda, in a state
+reachable by kernel steps -/
+theorem run_returns (fuel : Nat) (s0 : KS) : ∀ (n : Nat) (s : KS) (a : A), Inv F flow cfg s a → a.mu F < n →
+    KReach (prog F flow size cfg) (fuel + 1) s0 s →
+    ∃ sF aF, runLoop (prog F flow size cfg) (fuel + 1) none n s = .returned .none sF ∧
+      Inv F flow cfg sF aF ∧ sF.agenda = [] ∧ KReach (prog F flow size cfg) (fuel + 1) s0 sF
+  | 0, _, _, _, hmu, _ => absurd hmu (Nat.not_lt_zero _)
+  | n + 1, s, a, h, hmu, hre => by
+    cases hp : popMin s.agenda with
+    | none =>
+      refine ⟨s, a, ?_, h, popMin_none hp, hre⟩
+      simp [runLoop, step, hp]
+    | some qr =>
+      obtain ⟨q, rest⟩ := qr
+      obtain ⟨s', a', new, h1, h2, h3, -⟩ := inv_step (size := size) fuel h hp
+      have := run_returns fuel s0 n s' a' h2 (by omega) (KReach.step hre (by rw [h1]; rfl))
+      simpa [runLoop, h1] using this
+
+/-! ## the initial state -/
+
+/-- the configuration of the initial state -/
+def a0 (arrivals : List (ℚ × Int)) : A :=
+  { run := .init ⟨0, URGENT, 0, 1⟩, src := .init ⟨0, URGENT, 1, 3⟩ arrivals, pend := [], tokens := 0, items := fun _ => [],
+    cnt := fun _ => 0, byt := fun _ => 0, recv := 0, cur := none, keys := [] }
+
+theorem lookup_flowCells (v : List (Nat × Val)) : ∀ (n f0 f : Nat), f0 ≤ f → f < f0 + n →
+    lookup (flowCells f0 n ++ v) (cCount f) = .int 0 ∧ lookup (flowCells f0 n ++ v) (cBytes f) = .int 0 ∧
+    lookup (flowCells f0 n ++ v) (cLen f) = .int 0
+  | 0, f0, f, h1, h2 => by omega
+  | n + 1, f0, f, h1, h2 => by
+    simp only [flowCells, List.cons_append]
+    by_cases hf : f = f0
+    · subst hf
+      ssimp [TimerK.lookup_cons]
+    · have ih := lookup_flowCells v n (f0 + 1) f (by omega) (by omega)
+      ssimp [TimerK.lookup_cons, hf, ih.1, ih.2.1, ih.2.2]
+
+theorem getD_replicate (n r : Nat) (h : r < n) :
+    ((List.replicate n storeRes).toArray : Array ResRec).getD r default = storeRec [] [] := by
+  simp [Array.getD_eq_getD_getElem?, h, storeRes, storeRec]
+
+theorem inv_init (arrivals : List (ℚ × Int)) (hw : WorkOK flow F cfg arrivals) (ht : TableOK F cfg) (hr : 0 < cfg.rate) :
+    Inv F flow cfg (initState F arrivals) (a0 arrivals) := by
+  simp only [initState, List.foldl, doCall_spawn, zero_eq']
+  refine ⟨⟨⟨?_, ?_, ?_⟩, ?_, ?_, ?_, ?_, ?_, ?_, ?_, ?_, ?_, ?_, ?_, ?_, ?_⟩, ⟨?_, ?_, ?_, ?_, ?_, ?_, ?_, ?_, ht, hr⟩⟩
+  · intro q hq; simp at hq; rcases hq with rfl | rfl <;> simp
+  · intro q hq; simp at hq; rcases hq with rfl | rfl <;> simp
+  · simp
+  · simp only [A.entries, a0, RPhase.entries, SPhase.entries, pendEntries, List.map_nil, List.append_nil, List.singleton_append]
+    exact List.Perm.swap _ _ _
+  · simp
+  · simp only [KState.res, a0, RPhase.getQ, List.replicate]
+    exact getD_replicate (F + 1) 0 (by omega)
+  · intro f hf
+    simp only [KState.res, a0]
+    exact getD_replicate (F + 1) (flowStore f) (by unfold flowStore; omega)
+  · refine ⟨rfl, ?_, ?_, ?_⟩
+    · simp [EvIs, KState.ev]
+    · simp [proc?_eq, plookup]
+    · simp [EvIs, KState.ev]
+  · refine ⟨rfl, ?_, ?_, ?_⟩
+    · simp [EvIs, KState.ev]
+    · simp [proc?_eq, plookup]
+    · simp [EvIs, KState.ev]
+  · intro u hu; cases hu
+  · simp [a0, spids]
+  · ssimp [a0, TimerK.lookup_cons]
+  · ssimp [a0, TimerK.lookup_cons]
+  · intro f hf
+    have := (lookup_flowCells [] F 0 f (Nat.zero_le _) (by omega)).1
+    simp only [List.append_nil] at this
+    ssimp [a0, TimerK.lookup_cons, this]
+  · intro f hf
+    have := (lookup_flowCells [] F 0 f (Nat.zero_le _) (by omega)).2.1
+    simp only [List.append_nil] at this
+    ssimp [a0, TimerK.lookup_cons, this]
+  · intro f hf
+    have := (lookup_flowCells [] F 0 f (Nat.zero_le _) (by omega)).2.2
+    simp only [List.append_nil] at this
+    ssimp [a0, TimerK.lookup_cons, this]
+  · exact ⟨rfl, rfl, rfl, rfl, fun _ => rfl, fun _ => rfl, rfl⟩
+  · exact ⟨rfl, rfl, hw⟩
+  · intro u hu; cases hu
+  · intro x hx
+    simp [A.entries, a0, RPhase.entries, SPhase.entries, pendEntries] at hx
+    rcases hx with rfl | rfl <;> simp
+  · intro f hf; simp [a0, heldCnt, RPhase.held]
+  · intro f hf i hi; simp [a0] at hi
+  · intro f hf h; simp [a0] at h
+  · exact ⟨fun f hf => by simp [a0] at hf, fun f hf _ => ⟨rfl, rfl, rfl⟩⟩
+
+theorem a0_mu (arrivals : List (ℚ × Int)) : (a0 arrivals).mu F = 10 * arrivals.length + 3 := by
+  have : waitingFrom (fun _ => ([] : List Int)) 0 F = 0 := waitingFrom_zero _ _ _ (fun _ _ _ => rfl)
+  simp [A.mu, a0, RPhase.mu, SPhase.mu, this]
+  omega
+
+/-- **every state reachable by kernel steps is a sound configuration** -/
+theorem reach_inv (fuel : Nat) {arrivals : List (ℚ × Int)} (hw : WorkOK flow F cfg arrivals) (ht : TableOK F cfg)
+    (hr : 0 < cfg.rate) {s : KS} (h : KReach (prog F flow size cfg) (fuel + 1) (initState F arrivals) s) :
+    ∃ a, Inv F flow cfg s a := by
+  induction h with
+  | init => exact ⟨a0 arrivals, inv_init arrivals hw ht hr⟩
+  | @step s s' _ hs ih =>
+    obtain ⟨a, hi⟩ := ih
+    cases hp : popMin s.agenda with
+    | none => simp [step, hp, StepResult.state?] at hs
+    | some qr =>
+      obtain ⟨q, rest⟩ := qr
+      obtain ⟨s'', a', new, h1, h2, -⟩ := inv_step (size := size) fuel hi hp
+      rw [h1] at hs
+      simp only [StepResult.state?, Option.some.injEq] at hs
+      subst hs
+      exact ⟨a', h2⟩
+
 end SPK
